@@ -5185,7 +5185,9 @@ func readOfficialHeader(buf []byte) (size uint32, containerTyper func(index uint
 	}
 	cf := func(index uint, card int) (newType byte) {
 		newType = containerBitmap
-		if card < ArrayMaxSize {
+		// the official format uses array containers up to and including
+		// 4096 values (unlike optimize(), which stops at ArrayMaxSize-1)
+		if card <= ArrayMaxSize {
 			newType = containerArray
 		}
 		return newType
